@@ -1,4 +1,5 @@
-import Gsu.Proofs.SchemaAlg
+import Gsu.Proofs.SchemaAlg8
+import Gsu.Proofs.SchemaAlgRen3
 /-!
 # C21 Schema changes keep metadata consistent
 
@@ -13,6 +14,20 @@ The theorems are about `Gsu.SchemaAlg` (Model/SchemaAlg.lean), the definitions t
 `Drive/C21.lean` executes against the real `DoAdmin` in the correspondence suite.
 `data_unchanged` and `schema_text_roundtrip` have no Lean statement here (the model has no
 rows and no parser); they are direct oracles of the suite only.
+
+PROVED (full `schema_wf`): every one of the seven modelled operations, accepted or rejected,
+preserves `WF2 db := WF db ∧ no two tables of the same name`, where `WF` = `valid` ∧ `fkcols` ∧
+`inv` (Proofs/SchemaAlg.lean): `inv` says that the `FkToHere` list of every index is, as a
+multiset, exactly the set of `Fk`s that designate it — the exact inverse in both directions,
+self references included — so it also holds after every history from the empty database
+(`schema_wf_history`).  The only hypothesis on the requests is `OpOk`: an index spec with a
+foreign key carries explicit `Fk.columns` (the parser always fills them in from the index
+columns; `createFkeys` falls back to the index columns but stores the empty list).  Without it
+the `fkcols` clause (not `valid`, not `inv` as far as testing shows) can fail for one shape only,
+`key() in t()` — an empty key referring to an empty key (`schema_wf_fkcols_counter`).
+The development is in Proofs/SchemaAlg2…8.lean and Proofs/SchemaAlgRen…Ren3.lean (lookup
+calculus `look`, `LInv` = duplicate free + exactly the `Link`s, equivalent to `WF.inv`).
+MISSING: nothing of `schema_wf`; `data_unchanged` / `schema_text_roundtrip` remain suite oracles.
 -/
 namespace Gsu.Props.C21
 open Gsu.SchemaAlg
@@ -46,14 +61,86 @@ def runAll (db : Db) : List Op → Db
 theorem rejected_is_noop (db : Db) (op : Op) (h : op.run db = none) : keep db (op.run db) = db := by
   rw [h]; rfl
 
-/-- `schema_wf`, FULL STATEMENT (not proved): `WF db → WF (keep db (op.run db))` for every `op`,
-where `WF` = `valid` ∧ `fkcols` ∧ `inv` (Proofs/SchemaAlg.lean).
-PROVED here, for all seven operations and every history, accepted or rejected: the `valid`
-component — every table has ≥ 1 key, index columns exist, no duplicate index, and every `Fk`
-names an existing table in which `Fk.columns` is the key at position `Fk.iindex`.
-MISSING: preservation of `fkcols` and of `inv` (FkToHere = exact inverse of Fk) by the
-operations; `inv` is only covered by the suite's direct oracle and the differential replay. -/
-theorem schema_wf_partial (db : Db) (op : Op) (h : validate db = true) :
+/-- the index specs a request carries -/
+def Op.specs : Op → List Index
+  | .create _ _ s => s
+  | .alterCreate _ _ _ s => s
+  | .ensure _ _ _ s => s
+  | _ => []
+
+/-- the request's index specs with a foreign key have explicit `Fk.columns` (what the parser
+always produces: `in t` without a column list gets the index columns) -/
+def OpOk (op : Op) : Prop := ∀ s ∈ op.specs, s.fk.table ≠ "" → s.fk.columns ≠ []
+
+/-- the inductive invariant is `WF` plus unique table names … -/
+theorem wf2_wf {db : Db} (h : WF2 db) : WF db := h.1
+
+/-- … and the empty database has it -/
+theorem wf2_nil : WF2 [] := wf2_of_lwf lwf_nil
+
+/-- `schema_wf` for `create` -/
+theorem schema_wf_create (db : Db) (t : String) (cols : List String) (specs : List Index)
+    (hop : OpOk (.create t cols specs)) (h : WF2 db) : WF2 (keep db (create db t cols specs)) :=
+  keep_wf2 h (fun _ hr => create_lwf (lwf_of_wf2 h) hop hr)
+
+/-- `schema_wf` for `alter … create` -/
+theorem schema_wf_alterCreate (db : Db) (t : String) (d : Bool) (cols : List String) (specs : List Index)
+    (hop : OpOk (.alterCreate t d cols specs)) (h : WF2 db) :
+    WF2 (keep db (alterCreate db t d cols specs)) :=
+  keep_wf2 h (fun _ hr => alterCreate_lwf (lwf_of_wf2 h) hop hr)
+
+/-- `schema_wf` for `ensure` -/
+theorem schema_wf_ensure (db : Db) (t : String) (d : Bool) (cols : List String) (specs : List Index)
+    (hop : OpOk (.ensure t d cols specs)) (h : WF2 db) : WF2 (keep db (ensure db t d cols specs)) :=
+  keep_wf2 h (fun _ hr => ensure_lwf (lwf_of_wf2 h) hop hr)
+
+/-- `schema_wf` for `alter … drop` (index positions shift; `updateFkeysIIndex` repairs them) -/
+theorem schema_wf_alterDrop (db : Db) (t : String) (cols : List String) (idxs : List (List String))
+    (h : WF2 db) : WF2 (keep db (alterDrop db t cols idxs)) :=
+  keep_wf2 h (fun _ hr => alterDrop_lwf (lwf_of_wf2 h) hr)
+
+/-- `schema_wf` for `alter … rename` (columns) -/
+theorem schema_wf_renameCol (db : Db) (t : String) (from_ to : List String) (h : WF2 db) :
+    WF2 (keep db (alterRenameCol db t from_ to)) :=
+  keep_wf2 h (fun _ hr => alterRenameCol_lwf (lwf_of_wf2 h) hr)
+
+/-- `schema_wf` for `rename` (table) -/
+theorem schema_wf_renameTable (db : Db) (from_ to : String) (h : WF2 db) :
+    WF2 (keep db (renameTable db from_ to)) :=
+  keep_wf2 h (fun _ hr => renameTable_lwf (lwf_of_wf2 h) hr)
+
+/-- `schema_wf` for `drop` -/
+theorem schema_wf_drop (db : Db) (t : String) (h : WF2 db) : WF2 (keep db (drop db t)) :=
+  keep_wf2 h (fun _ hr => drop_lwf (lwf_of_wf2 h) hr)
+
+/-- `schema_wf`, FULL: every request, accepted or rejected, keeps the metadata well formed
+(`valid` ∧ `fkcols` ∧ `inv`, and table names unique). -/
+theorem schema_wf (db : Db) (op : Op) (hop : OpOk op) (h : WF2 db) : WF2 (keep db (op.run db)) := by
+  cases op with
+  | create t c s => exact schema_wf_create db t c s hop h
+  | alterCreate t d c s => exact schema_wf_alterCreate db t d c s hop h
+  | ensure t d c s => exact schema_wf_ensure db t d c s hop h
+  | alterDrop t c i => exact schema_wf_alterDrop db t c i h
+  | renameCol t f to => exact schema_wf_renameCol db t f to h
+  | renameTable f to => exact schema_wf_renameTable db f to h
+  | drop t => exact schema_wf_drop db t h
+
+/-- `schema_wf` over whole histories starting from the empty database. -/
+theorem schema_wf_history (ops : List Op) (hops : ∀ op ∈ ops, OpOk op) : WF2 (runAll [] ops) := by
+  suffices ∀ db, WF2 db → WF2 (runAll db ops) from this [] wf2_nil
+  induction ops with
+  | nil => intro db h; exact h
+  | cons op r ih =>
+    intro db h
+    exact ih (fun o ho => hops o (List.mem_cons_of_mem _ ho)) _
+      (schema_wf db op (hops op (by simp)) h)
+
+/-- … in particular `WF` itself -/
+theorem schema_wf_history_wf (ops : List Op) (hops : ∀ op ∈ ops, OpOk op) : WF (runAll [] ops) :=
+  (schema_wf_history ops hops).1
+
+/-- the `valid` clause alone needs no hypothesis on the request at all -/
+theorem schema_valid (db : Db) (op : Op) (h : validate db = true) :
     validate (keep db (op.run db)) = true := by
   cases hr : op.run db with
   | none => exact h
@@ -68,12 +155,12 @@ theorem schema_wf_partial (db : Db) (op : Op) (h : validate db = true) :
     | renameTable f to => exact renameTable_valid hr
     | drop t => exact drop_valid hr
 
-/-- `schema_wf_partial` over whole histories starting from the empty database. -/
-theorem schema_wf_history_partial (ops : List Op) : validate (runAll [] ops) = true := by
+/-- `schema_valid` over whole histories starting from the empty database. -/
+theorem schema_valid_history (ops : List Op) : validate (runAll [] ops) = true := by
   suffices ∀ db, validate db = true → validate (runAll db ops) = true from this [] rfl
   induction ops with
   | nil => intro db h; exact h
-  | cons op r ih => intro db h; exact ih _ (schema_wf_partial db op h)
+  | cons op r ih => intro db h; exact ih _ (schema_valid db op h)
 
 /-- what `validate` means, table by table: at least one key -/
 theorem wf_has_key {db : Db} (h : validate db = true) {t : Table} (ht : t ∈ db) :
@@ -96,6 +183,11 @@ fields (ReadMeta after a reopen) gives back the same metadata up to the order of
 theorem fk_links_inverse {db : Db} (w : WF db) : DbEquiv (linkFkeys db) db :=
   linkFkeys_restores w
 
+/-- hence after every history of `OpOk` requests a reopen changes nothing -/
+theorem fk_links_inverse_history (ops : List Op) (hops : ∀ op ∈ ops, OpOk op) :
+    DbEquiv (linkFkeys (runAll [] ops)) (runAll [] ops) :=
+  linkFkeys_restores (schema_wf_history_wf ops hops)
+
 /-! ### non-vacuity: a database with a cross-table and a self-referencing foreign key -/
 
 /-- `create ta (a,b) key(a)` ; `create tb (a,b,c) key(a) index(c) in ta(a) cascade index(b) in tb(a)` -/
@@ -107,16 +199,50 @@ def exDb : Db :=
                    { mode := 'i', columns := ["c"], bestKey := ["a"], fk := ⟨"ta", ["a"], 0, 3⟩ },
                    { mode := 'i', columns := ["b"], bestKey := ["a"], fk := ⟨"tb", ["a"], 0, 0⟩ } ] } ]
 
-/-- the model's own operations build it -/
-example : ((create [] "ta" ["a", "b"] [{ mode := 'k', columns := ["a"] }]).bind fun d =>
-    create d "tb" ["a", "b", "c"] [ { mode := 'k', columns := ["a"] },
+def exOp1 : Op := .create "ta" ["a", "b"] [{ mode := 'k', columns := ["a"] }]
+def exOp2 : Op := .create "tb" ["a", "b", "c"] [ { mode := 'k', columns := ["a"] },
       { mode := 'i', columns := ["c"], fk := ⟨"ta", ["a"], 0, 3⟩ },
-      { mode := 'i', columns := ["b"], fk := ⟨"tb", ["a"], 0, 0⟩ } ]) = some exDb := by decide
+      { mode := 'i', columns := ["b"], fk := ⟨"tb", ["a"], 0, 0⟩ } ]
+
+/-- the model's own operations build it -/
+example : runAll [] [exOp1, exOp2] = exDb := by decide
+
+/-- `OpOk` is satisfiable: these requests have it -/
+example : OpOk exOp1 ∧ OpOk exOp2 := by
+  constructor <;> (intro s hs; simp only [exOp1, exOp2, Op.specs] at hs; revert s; decide)
 
 example : WF exDb := ⟨by decide, by decide, by decide⟩
+
+example : WF2 exDb := ⟨⟨by decide, by decide, by decide⟩, by unfold NamesNodup names; decide⟩
 
 /-- dropping the self-referencing index removes its `FkToHere` entry (finding 20, repaired) -/
 example : (alterDrop exDb "tb" [] [["b"]]).map schemaText =
     some "ta(a,b)|k:a~<tb:c:1:3;tb(a,b,c)|k:a~|i:c~a>ta:a:0:3" := by decide
+
+/-! ### `OpOk` is needed for the `fkcols` clause (and only for the empty-key shape) -/
+
+/-- `create ta (a) key()` -/
+def cxDb : Db := [ { name := "ta", columns := ["a"], indexes := [ { mode := 'k', columns := [] } ] } ]
+
+/-- `create tb (a) key() in ta()` with the `Fk.columns` left empty: accepted, `valid` and `inv`
+hold, but `Fk.columns` is not explicit.  (No defect of the code: `fkCols` falls back to the
+index columns, which are empty too; it only shows that `WF.fkcols` needs `OpOk`.) -/
+def cxSpec : Index := { mode := 'k', columns := [], fk := ⟨"ta", [], 0, 0⟩ }
+
+/-- what the model answers to that request -/
+def cxDb' : Db :=
+  [ { name := "ta", columns := ["a"], indexes := [ { mode := 'k', columns := [], fkToHere := [⟨"tb", [], 0, 0⟩] } ] },
+    { name := "tb", columns := ["a"], indexes := [ cxSpec ] } ]
+
+theorem schema_wf_fkcols_counter :
+    WF2 cxDb ∧ ¬ OpOk (.create "tb" ["a"] [cxSpec]) ∧
+    create cxDb "tb" ["a"] [cxSpec] = some cxDb' ∧ validate cxDb' = true ∧ ¬ WF cxDb' := by
+  refine ⟨⟨⟨by decide, by decide, by decide⟩, by unfold NamesNodup names; decide⟩, ?_, by decide, by decide, ?_⟩
+  · intro h
+    exact h cxSpec (by simp [Op.specs]) (by decide) rfl
+  · intro w
+    have := w.fkcols
+    revert this
+    decide
 
 end Gsu.Props.C21
